@@ -1,6 +1,192 @@
-(* C07 — theorems being added *)
+(* C07 — No transaction is charged more than the maximum fee it signed.
+
+   INTENDED STATEMENT (false on the faithful model — finding F-16, KNOWN-FINDING of known_findings.json):
+     forall r mk p b o, execute_block r mk p b = inl o ->
+       Forall2 (fun t res => res_fee res <= t_maxfee t) (b_txs b) (o_results o)
+     i.e. "included -> charged fee <= Base.MaxFee" (spec_ok of Check/C07_check.v: fees_within).
+   chain/transaction.go:PreExecute computes the fee and checks the sponsor's balance, but neither it
+   nor Execute, the builder or the pre-executor ever compares the fee with Base.MaxFee; the model
+   (Model/Chain.v: pre_execute, execute_tx) follows the code, so the statement is REFUTED below
+   (C07_refuted, C07_block_refuted) and, more strongly, the max_fee field is shown to be dead:
+   no verdict, result, post-state or fee state depends on it (C07_maxfee_never_read_refuted).
+   If a later tree enforces the bound, pre_execute gets the comparison and the intended statement
+   replaces the refutation.
+
+   What does hold, and is proved for all inputs:
+     - the charged fee is exactly unit prices x units (C07_charged_fee_is_price_times_units_partial),
+       so "fee <= max_fee" holds for an included transaction iff prices x units <= max_fee;
+     - there is a single gate, pre_execute, whose verdict is a function of (rules, fee manager,
+       transaction, units, timestamp, sponsor balance) only; a transaction is included only through
+       it and is charged the fee it computed (C07_same_gate_partial);
+     - the gate rejects a transaction whose sponsor cannot pay the fee: nobody is ever charged more
+       than they own (C07_fee_bounded_by_balance_partial).
+   Proofs: Proofs/TxAtomic_proofs.v. *)
 From stdpp Require Import gmap.
-From HV Require Import Model.Keys Model.Tstate Model.Fees Model.Chain.
-Theorem C07_placeholder_too_late : forall r mk p b, b_too_late b = true -> execute_block r mk p b = inr (clsTooLate, 0%N).
-Proof. intros r mk p b H. unfold execute_block. rewrite H. reflexivity. Qed.
-Print Assumptions C07_placeholder_too_late.
+From Coq Require Import NArith ZArith.
+From HV Require Import Lib.Bytes Lib.U64 Model.Keys Model.Tstate Model.Fees Model.TxStatic Model.Chain
+                       Proofs.Tstate_proofs Proofs.Fees_proofs Proofs.ChainBridge_proofs Proofs.TxAtomic_proofs.
+Local Open Scope N_scope.
+
+(* ---- witnesses ---- *)
+Definition ex_sp : key := [115; 0; 1].
+Definition ex_k : key := [97; 0; 1].
+Definition ex_a : action := mkAction 1 [(ex_k, 7)] [OPut ex_k [5]; OGet ex_k] (-1) (-1).
+(* signed max fee = 1 *)
+Definition ex_tx : tx := mkTx 1067000 true 1 ex_sp true 1 (-1) (-1) 100 false [ex_a].
+Definition ex_sk : gmap key perm := default ∅ (state_keys ex_tx).
+Definition ex_parent : gmap key val := {[ex_sp := be64 1000]}.
+Definition ex_view : view := tx_view ex_parent ts_new ex_sk.
+Definition ex_rules : rules :=
+  mkRules 100 750 [1;1;1;1;1] [48;48;48;48;48] [20000000;1000;1000;1000;1000]
+          [1800000;2000;2000;2000;2000] 60000 16 1 5 2 20 5 10 3.
+Definition ex_fm : manager := mkFee 1058 [1; 2; 1; 3; 1] [] [0;0;0;0;0].
+Definition ex_units : dims := default [] (units ex_rules ex_tx ex_sk).
+Definition ex_block (txs : list tx) : block := mkBlock 1060318 48 true false false None txs.
+Definition ex_meta : meta_keys := mkMeta [0;0;1] [1;0;1] [2;0;8].
+Definition ex_pstate : parent_state := mkParent ex_parent (Some 47) 1059318 ex_fm.
+
+(* ---- the finding ---- *)
+
+(* PreExecute accepts, and Execute charges, a fee strictly above the signed maximum fee. *)
+Theorem C07_refuted : exists r fm t sk u s ts f s' res,
+  state_keys t = Some sk /\ units r t sk = Some u
+  /\ pre_execute r fm t u s ts = (0, f)
+  /\ execute_tx t u f s = Some (s', res)
+  /\ res_success res = true
+  /\ t_maxfee t < res_fee res
+  /\ get_balance s (t_sponsor_key t) = Some 1000
+  /\ get_balance s' (t_sponsor_key t) = Some (1000 - res_fee res).
+Proof.
+  exists ex_rules, ex_fm, ex_tx, ex_sk, ex_units, ex_view, 1060318%Z, 296.
+  assert (E : exists x, execute_tx ex_tx ex_units 296 ex_view = Some x
+              /\ res_success (snd x) = true /\ t_maxfee ex_tx < res_fee (snd x)
+              /\ get_balance ex_view (t_sponsor_key ex_tx) = Some 1000
+              /\ get_balance (fst x) (t_sponsor_key ex_tx) = Some (1000 - res_fee (snd x))).
+  { eexists. split; [vm_compute; reflexivity|]. vm_compute. repeat split; reflexivity. }
+  destruct E as ([s' res] & X & H). exists s', res.
+  split; [vm_compute; reflexivity|]. split; [vm_compute; reflexivity|]. split; [vm_compute; reflexivity|].
+  split; [exact X | exact H].
+Qed.
+Print Assumptions C07_refuted.
+
+(* A block whose only transaction signed max fee 1 is accepted and charges it 243. *)
+Theorem C07_block_refuted : exists r mk p b o t res,
+  execute_block r mk p b = inl o /\ b_txs b = [t] /\ o_results o = [res]
+  /\ t_maxfee t = 1 /\ res_fee res = 243.
+Proof.
+  exists ex_rules, ex_meta, ex_pstate, (ex_block [ex_tx]).
+  assert (E : exists o, execute_block ex_rules ex_meta ex_pstate (ex_block [ex_tx]) = inl o
+              /\ map res_fee (o_results o) = [243] /\ length (o_results o) = 1%nat).
+  { eexists. split; [vm_compute; reflexivity|]. vm_compute. split; reflexivity. }
+  destruct E as (o & X & Hf & Hl). exists o, ex_tx.
+  destruct (o_results o) as [|res [|? ?]] eqn:R; try discriminate Hl.
+  exists res. cbn [map] in Hf. inversion Hf. repeat split; auto.
+Qed.
+Print Assumptions C07_block_refuted.
+
+(* The general form of the finding: the verdict on a block, its results (fees included), its
+   post-state and fee state are the same whatever max_fee each transaction carries.  In particular
+   every accepted block stays accepted, with the same charges, when all signed maxima are set to 0. *)
+Theorem C07_maxfee_never_read_refuted : forall r mk p b,
+  (forall txs', Forall2 same_but_maxfee (b_txs b) txs' ->
+     execute_block r mk p (with_txs b txs') = execute_block r mk p b)
+  /\ execute_block r mk p (with_txs b (map (with_maxfee 0) (b_txs b))) = execute_block r mk p b.
+Proof.
+  intros r mk p b. split.
+  - intros txs'. apply execute_block_maxfee.
+  - apply (execute_block_remax r mk p b (fun _ => 0)).
+Qed.
+Print Assumptions C07_maxfee_never_read_refuted.
+
+(* ---- the part of the property that holds ---- *)
+
+(* The fee charged to an included transaction is Fees.fee of the block's fee manager and the
+   transaction's units = sum_d price_d * units_d, and the task's outcome is the same for every
+   value of the max_fee field.  (Hence: charged fee <= max_fee iff prices x units <= max_fee.) *)
+Theorem C07_charged_fee_is_price_times_units_partial : forall r fm parent ts st t sk u st' res,
+  run_tx r fm parent ts st t sk u = (st', inl res) ->
+  fee fm u = Some (res_fee res) /\ res_fee res = price_x_units (unit_prices fm) u
+  /\ forall m, run_tx r fm parent ts st (with_maxfee m t) sk u = (st', inl res).
+Proof. exact run_tx_fee_any_maxfee. Qed.
+Print Assumptions C07_charged_fee_is_price_times_units_partial.
+
+(* Same at block level: one result per transaction of an accepted block, fee = output prices x units. *)
+Theorem C07_block_fee_is_price_times_units_partial : forall r mk p b o, execute_block r mk p b = inl o ->
+  Forall2 (fun t res => exists sk, state_keys t = Some sk /\ units r t sk = Some (res_units res)
+       /\ fee (o_fee o) (res_units res) = Some (res_fee res)
+       /\ res_fee res = price_x_units (o_prices o) (res_units res) /\ res_fee res <= MaxU64)
+    (b_txs b) (o_results o).
+Proof. exact execute_block_fees. Qed.
+Print Assumptions C07_block_fee_is_price_times_units_partial.
+
+(* One gate.  (a) pre_execute accepts (class 0) and hands fee f to Execute exactly when the static
+   checks pass (the function the admission path uses too: TxStatic.admit_static is
+   pre_execute_static), the fee of the units is computable and equals f, and the sponsor's balance
+   is readable and at least f; (b) two call sites whose views show the same sponsor balance get the
+   same verdict and fee; (c) a transaction is included by the block executor only if this gate
+   accepted it on the transaction's view, and it is charged the fee the gate computed.
+   Partial: the model contains the verifier's call site only; the builder's and the pre-executor's
+   calls to Transaction.PreExecute are the same Go function, which the driver does not exercise. *)
+Theorem C07_same_gate_partial : forall r fm t u ts,
+  (forall s f, pre_execute r fm t u s ts = (0, f) <->
+     pre_execute_static (static_rules r) (static_tx t) ts = 0
+     /\ fee fm u = Some f
+     /\ exists b, get_balance s (t_sponsor_key t) = Some b /\ f <= b)
+  /\ (forall s1 s2, get_balance s1 (t_sponsor_key t) = get_balance s2 (t_sponsor_key t) ->
+        pre_execute r fm t u s1 ts = pre_execute r fm t u s2 ts)
+  /\ (forall parent st sk st' res, run_tx r fm parent ts st t sk u = (st', inl res) ->
+        pre_execute r fm t u (tx_view parent st sk) ts = (0, res_fee res))
+  /\ (forall now, admit_static (static_rules r) (static_tx t) now = pre_execute_static (static_rules r) (static_tx t) now).
+Proof.
+  intros r fm t u ts. split; [intros s f; apply pre_execute_ok_iff|].
+  split; [intros s1 s2; apply pre_execute_same_gate|].
+  split; [intros parent st sk st' res; apply run_tx_gate | reflexivity].
+Qed.
+Print Assumptions C07_same_gate_partial.
+
+(* The bound that IS enforced: the gate rejects a transaction whose sponsor balance is below the
+   fee, such a transaction is never included (its task fails, nothing is committed), and every
+   included transaction's fee is at most the sponsor's balance before it. *)
+Theorem C07_fee_bounded_by_balance_partial : forall r fm parent ts st t sk u,
+  (forall f b, fee fm u = Some f -> get_balance (tx_view parent st sk) (t_sponsor_key t) = Some b -> b < f ->
+     fst (pre_execute r fm t u (tx_view parent st sk) ts) <> 0
+     /\ exists e, run_tx r fm parent ts st t sk u = (st, inr e) /\ e <> 0)
+  /\ (forall st' res, run_tx r fm parent ts st t sk u = (st', inl res) ->
+        exists b, get_balance (tx_view parent st sk) (t_sponsor_key t) = Some b /\ res_fee res <= b).
+Proof.
+  intros r fm parent ts st t sk u. split.
+  - intros f b Hf Hb Hlt. split; [eapply pre_execute_rejects_poor; eassumption | eapply run_tx_poor; eassumption].
+  - intros st' res H. destruct (run_tx_fee _ _ _ _ _ _ _ _ _ _ H) as (_ & _ & _ & _ & Hb). exact Hb.
+Qed.
+Print Assumptions C07_fee_bounded_by_balance_partial.
+
+(* ---- non-vacuity ---- *)
+
+(* an included transaction (hypothesis of the run_tx theorems), charged 296 = [1;2;1;3;1] x units
+   with max_fee = 1; the same outcome with max_fee = 0 and 2^64-1 *)
+Example C07_included_example :
+  match run_tx ex_rules ex_fm ex_parent 1060318 ts_new ex_tx ex_sk ex_units with
+  | (st', inl res) =>
+      res_fee res = 296 /\ res_fee res = price_x_units (unit_prices ex_fm) ex_units /\ t_maxfee ex_tx = 1
+      /\ run_tx ex_rules ex_fm ex_parent 1060318 ts_new (with_maxfee 0 ex_tx) ex_sk ex_units = (st', inl res)
+      /\ run_tx ex_rules ex_fm ex_parent 1060318 ts_new (with_maxfee MaxU64 ex_tx) ex_sk ex_units = (st', inl res)
+  | (_, inr _) => False
+  end.
+Proof. vm_compute. repeat split; reflexivity. Qed.
+
+(* an accepted block (hypothesis of the block theorems) *)
+Example C07_block_example :
+  match execute_block ex_rules ex_meta ex_pstate (ex_block [ex_tx; with_maxfee 1000 ex_tx]) with
+  | inl o => map res_fee (o_results o) = [243; 243] /\ o_prices o = [1; 1; 1; 2; 1]
+             /\ map res_units (o_results o) = [ex_units; ex_units]
+  | inr _ => False
+  end.
+Proof. vm_compute. repeat split; reflexivity. Qed.
+
+(* the gate rejects a sponsor that cannot pay: balance 1000, fee 2196 *)
+Example C07_poor_example :
+  fee ex_fm [2000; 3; 14; 50; 26] = Some 2196
+  /\ get_balance ex_view ex_sp = Some 1000
+  /\ pre_execute ex_rules ex_fm ex_tx [2000; 3; 14; 50; 26] ex_view 1060318 = (subInsufficient, 2196)
+  /\ run_tx ex_rules ex_fm ex_parent 1060318 ts_new ex_tx ex_sk [2000; 3; 14; 50; 26] = (ts_new, inr subInsufficient).
+Proof. vm_compute. repeat split; reflexivity. Qed.
